@@ -55,11 +55,22 @@ Proof. induction l as [|p l IH]; intros v; [reflexivity|]. cbn [fold_left]. rewr
 Lemma fold_view_pkt_seen d l : forall v, v_seen (fold_left (view_pkt d) l v) = fold_left seen_pkt l (v_seen v).
 Proof. induction l as [|p l IH]; intros v; [reflexivity|]. cbn [fold_left]. rewrite IH, view_pkt_seen. reflexivity. Qed.
 
+Lemma view_drop_pubs v : v_pubs (view_drop v) = v_pubs v.
+Proof. unfold view_drop, set_session, set_conn. destruct (v_exp v); reflexivity. Qed.
+Lemma view_drop_seen v : v_seen (view_drop v) = v_seen v.
+Proof. unfold view_drop, set_session, set_conn. destruct (v_exp v); reflexivity. Qed.
+
 Lemma view_step_pubs c v o ob : v_pubs (view_step c v o ob) = msg_of o ++ v_pubs v.
-Proof. unfold view_step. cbn [v_pubs]. rewrite fold_view_pkt_pubs. apply view_op_pubs. Qed.
+Proof.
+  unfold view_step. cbn [v_pubs]. destruct (ob_fault ob && ob_closed ob); rewrite ?view_drop_pubs;
+    rewrite fold_view_pkt_pubs; apply view_op_pubs.
+Qed.
 
 Lemma view_step_seen c v o ob : v_seen (view_step c v o ob) = fold_left seen_pkt (ob_pkts ob) (v_seen v).
-Proof. unfold view_step. cbn [v_seen]. rewrite fold_view_pkt_seen, view_op_seen. reflexivity. Qed.
+Proof.
+  unfold view_step. cbn [v_seen]. destruct (ob_fault ob && ob_closed ob); rewrite ?view_drop_seen;
+    rewrite fold_view_pkt_seen, view_op_seen; reflexivity.
+Qed.
 
 (* ---------- the specification, in the property's words ---------- *)
 (* messages published towards the session, oldest first; uids received as PUBLISH packets, in order *)
@@ -312,7 +323,7 @@ Lemma replay_accept12 c : forall tr s v t n ag,
 Proof.
   induction tr as [|[o ob] tr IH]; intros s v t n ag H NE; [exact Logic.I|].
   cbn [replay] in H. cbn [never_err] in NE. destruct NE as [E NE].
-  destruct (step c s o (orc_for s o ob)) as [s' outs].
+  destruct (stepx c s o ob (orc_for s o ob)) as [s' outs].
   destruct (chk 12 c v o ob) as [vi|] eqn:Ck; [cbn in H; discriminate H|].
   cbn [accept12]. split; [|eapply IH; [exact H|exact NE]].
   unfold chk in Ck. rewrite E in Ck. exact Ck.
